@@ -81,6 +81,10 @@ class E1Check:
             return False
         return True
 
+    def apply(self, world, op, T):
+        """Perform the transition; checks that need to record or perturb the call override this."""
+        return world.apply(op)
+
     def is_probe(self, op):
         """Probe transitions are executed and checked but their successors are not enqueued."""
         return False
@@ -129,7 +133,8 @@ class E1Check:
         T.pre_bytes = w.file_bytes()
         T.pre_tmp, T.pre_dbdir = (w.tmp_listing(), w.db_listing()) if w.path else (None, None)
         T.pre_valid = w.db.index.valid
-        T.outcome = w.apply(op)
+        T.extra = None
+        T.outcome = self.apply(w, op, T)
         T.post_bytes = w.file_bytes()
         T.post_tmp, T.post_dbdir = (w.tmp_listing(), w.db_listing()) if w.path else (None, None)
         T.post_valid = w.db.index.valid
